@@ -152,8 +152,94 @@ def rules(rep, prog):
                 ", ".join(a), ", ".join(want)))
 
 
+def _ratio_side(e):
+    s = fmt(e)
+    src = "src_width" in s or "src_height" in s
+    dst = "dst_width" in s or "dst_height" in s
+    if src and not dst:
+        return "image"
+    if dst and not src:
+        return "required"
+    return None
+
+
+def inside(rep, prog, rule):
+    rep.rule(rule, "a crop dimension that fit_src_into_dst_size computes from the ratios "
+             "(required_ratio * height, or width / required_ratio) is assigned only where the "
+             "image ratio is STRICTLY on the right side of the required ratio (strict comparison, "
+             "or a non-strict one after the approximately-equal branch took the equal case), or "
+             "is clamped with min(.., source dimension); with equal ratios fl(fl(dw/dh) * h) can "
+             "exceed w by one ulp (252x108 -> 28x12 gives 252.00000000000003), the box then "
+             "leaves the source and the resize fails with a cropping error")
+    f = prog.fn_by_name("crop_box::CropBox::fit_src_into_dst_size")
+    rep.touch(f)
+    sym = Sym(f)
+    n = 0
+    for nm, need, dim in (("crop_width", ">", "src_width"), ("crop_height", "<", "src_height")):
+        ls = [i for i, l in enumerate(f.locals) if l[1] == nm]
+        if len(ls) != 1:
+            rep.unk(rule, nm, f.loc, "local `%s` not found" % nm)
+            continue
+        for k, (bb, j, rv, whole) in enumerate(sorted(f.defs().get(ls[0], []))):
+            e = sym.rvalue(rv, bb, (bb, j))
+            if _only_atom(e, dim):
+                continue
+            n += 1
+            key = "%s#%d" % (nm, k)
+            s = fmt(e)
+            if e[0] == "call" and e[1] in ("min", "clamp") and any(_only_atom(a, dim) for a in e[2]):
+                rep.ok(rule, key, f.loc, "%s = %s is clamped to the source" % (nm, s[:80]))
+                continue
+            if not (e[0] == "bin" and e[1] in ("Mul", "Div")):
+                rep.unk(rule, key, f.loc, "%s = %s: form not recognised" % (nm, s[:100]))
+                continue
+            rel, excluded = None, False
+            for cond, val in sym.facts_at(bb):
+                if cond[0] != "bin" or not isinstance(val, bool):
+                    continue
+                if cond[1] == "Lt" and "abs(" in fmt(cond[2]) and cond[3][0] == "const" \
+                        and val is False and isinstance(cond[3][1], float) and cond[3][1] > 0 \
+                        and _ratio_side(cond[2]) is None and "Sub" in fmt(cond[2]):
+                    excluded = True
+                    continue
+                if cond[1] not in ("Ge", "Gt", "Le", "Lt"):
+                    continue
+                a, b = _ratio_side(cond[2]), _ratio_side(cond[3])
+                if {a, b} != {"image", "required"}:
+                    continue
+                op = cond[1]
+                if not val:
+                    op = {"Ge": "Lt", "Gt": "Le", "Le": "Gt", "Lt": "Ge"}[op]
+                if a == "required":
+                    op = {"Ge": "Le", "Gt": "Lt", "Le": "Ge", "Lt": "Gt"}[op]
+                rel = op            # image <op> required
+            if rel is None:
+                rep.unk(rule, key, f.loc, "%s = %s: no comparison of the two ratios dominates "
+                        "the assignment" % (nm, s[:80]))
+                continue
+            right_dir = rel in (("Gt", "Ge") if need == ">" else ("Lt", "Le"))
+            strict = rel in ("Gt", "Lt")
+            if not right_dir:
+                rep.bad(rule, key + "|direction", f.loc, "%s = %s is assigned where the image "
+                        "ratio is %s the required ratio: the computed dimension exceeds the "
+                        "source" % (nm, s[:80], {"Gt": "above", "Ge": "not below", "Lt": "below",
+                                                 "Le": "not above"}[rel]))
+            elif strict or excluded:
+                rep.ok(rule, key, f.loc, "%s = %s only where image ratio %s required ratio%s" % (
+                    nm, s[:60], {"Gt": ">", "Ge": ">=", "Lt": "<", "Le": "<="}[rel],
+                    " and the ratios are not approximately equal" if excluded else ""))
+            else:
+                rep.bad(rule, key + "|equal-ratio", f.loc, "%s = %s is also used when the two "
+                        "ratios are equal (comparison %s, no approximately-equal branch before "
+                        "it): fl(fl(dw/dh) * h) can exceed w by one ulp (e.g. 252x108 -> 28x12), "
+                        "so the box leaves the source and the resize fails with a cropping error"
+                        % (nm, s[:80], {"Ge": ">=", "Le": "<="}[rel]))
+    rep.floor(rule, "computed crop dimensions", n, 2)
+
+
 def run(rep, tier):
     cfgs = ["x86"] if tier == "quick" else ["x86", "arm", "wasm"]
     for cfg, prog in programs(cfgs):
         rep.set_cfg(cfg)
         rep.call(rules, rep, prog)
+        rep.call(inside, rep, prog, "C15.inside")
